@@ -1,5 +1,6 @@
 import Ktm.Sync
 import Ktm.SyncOrig
+import Ktm.SyncMulti
 /-! # C17 — oracle operations are mutually exclusive, linearizable and never wedge
 
 Model (`Ktm/Sync.lean`): the repaired `synchronized` wrapper as a small-step system over its shared
@@ -42,6 +43,39 @@ a thread holding the lock is never blocked, so it always reaches its release -/
 theorem only_acquire_blocks (f : Nat → Nat → Nat) (g : G) (t : Nat) (r : Bool) (hb : step f g t r = none) :
     g.pc t = .decided true ∧ g.held ≠ none :=
   Sync.only_acquire_blocks f g t r hb
+
+/-- **different oracles do not block each other** (`Ktm/SyncMulti.lean`: several oracles, the per-oracle locks looked up
+under the process-wide guard as the code does it). In every reachable state a thread that cannot move either waits
+for the guard, whose holder is in the middle of a lookup, or for the lock of the oracle it is calling, held by a thread
+inside a call on that same oracle … -/
+theorem different_oracles_do_not_block (sched : List (Nat × Nat)) (t o : Nat)
+    (hb : SyncMulti.step (SyncMulti.run SyncMulti.init sched) t o = none) :
+    (∃ o' u, (SyncMulti.run SyncMulti.init sched).pc t = .decided o' ∧ (SyncMulti.run SyncMulti.init sched).guard = some u ∧
+        SyncMulti.isLookup ((SyncMulti.run SyncMulti.init sched).pc u) = true) ∨
+    (∃ o' u, (SyncMulti.run SyncMulti.init sched).pc t = .want o' ∧ (SyncMulti.run SyncMulti.init sched).held o' = some u ∧
+        SyncMulti.csOf ((SyncMulti.run SyncMulti.init sched).pc u) = some o') :=
+  SyncMulti.blocked_only_by_same_oracle _ (SyncMulti.inv_reachable sched) t o hb
+
+/-- … the guard is held only during the lookup itself and its holder is never blocked: its next step releases it -/
+theorem guard_is_momentary (sched : List (Nat × Nat)) (t o : Nat)
+    (hgd : (SyncMulti.run SyncMulti.init sched).guard = some t) :
+    (∃ o', (SyncMulti.run SyncMulti.init sched).pc t = .lookup o') ∧
+    ∃ g', SyncMulti.step (SyncMulti.run SyncMulti.init sched) t o = some g' ∧ g'.guard = none :=
+  ⟨(SyncMulti.guard_only_during_lookup sched t).mp hgd,
+   SyncMulti.guard_holder_not_blocked _ (SyncMulti.inv_reachable sched) t o hgd⟩
+
+/-- mutual exclusion holds per oracle in the several-oracle model too -/
+theorem mutual_exclusion_per_oracle (sched : List (Nat × Nat)) (o t u : Nat)
+    (ht : SyncMulti.csOf ((SyncMulti.run SyncMulti.init sched).pc t) = some o)
+    (hu : SyncMulti.csOf ((SyncMulti.run SyncMulti.init sched).pc u) = some o) : t = u :=
+  SyncMulti.mutex_per_oracle sched o t u ht hu
+
+/-- a wrapper that keeps the guard while it waits for the oracle's lock breaks the clause: a call on an idle oracle is
+blocked behind a thread that merely queues on a busy one -/
+theorem guard_kept_while_waiting_blocks_others :
+    let g := SyncMulti.runHG SyncMulti.init [(0, 0), (0, 0), (0, 0), (0, 0), (2, 0), (2, 0), (2, 0), (1, 1)]
+    g.pc 0 = .body 0 ∧ g.pc 2 = .lookup 0 ∧ g.guard = some 2 ∧ g.pc 1 = .decided 1 ∧ SyncMulti.stepHeldGuard g 1 1 = none :=
+  SyncMulti.held_guard_blocks_other_oracle
 
 /-- the wrapper as it was (lock created lazily without a guard, no `try/finally`): the first concurrent use of
 a fresh oracle puts two threads inside the method, and a raising call wedges every other thread -/
